@@ -196,6 +196,24 @@ class Check(PropertyCheck):
             for what, a, b, want in pairs:
                 if (a == b) != want or (b == a) != want or (a != b) == want:
                     res.append(("eq-structure", f"instances ({what}): == is {a == b}, content equality is {want}"))
+            # user subclasses of Operation that declare their own __slots__ (a due date, say): machines, duration and
+            # position are still part of the content
+
+            class DueOperation(jsl.Operation):
+                __slots__ = ("due",)
+
+                def __init__(self, machines, duration, due):
+                    super().__init__(machines, duration)
+                    self.due = due
+            x, y, z = DueOperation(0, 5, 1), DueOperation(r.randint(1, 2), 5 + r.randint(0, 1), 1), DueOperation(0, 5, 1)
+            w = DueOperation(0, 5, 2)
+            for what, a, b, want in [("different machines/durations, same due date", x, y, False),
+                                     ("same content", x, z, True), ("different due date only", x, w, False)]:
+                if (a == b) != want or (b == a) != want or (a != b) == want:
+                    res.append(("eq-subclass", f"operations of a subclass with its own __slots__ ({what}): == is {a == b}, "
+                                f"content equality is {want}"))
+            if hash(x) != hash(z):
+                res.append(("hash", "equal operations of a subclass hash differently"))
         elif line == "mark other" and "pair" in ctx:
             x, y = ctx["pair"]
             for other in (None, 0, "x", (1, 2), [x], object()):
